@@ -242,6 +242,8 @@ class LoopInfo:
         self.bound_node = None
         self.rel = None
         self.call = None
+        self.step_lin = None   # amount the induction variable advances by per iteration
+        self.step_node = None
         self.calls = []        # every call of the functor with the loop index inside the loop
         self.arg = None
         self.cond_ops = None   # (i operand expr, bound operand expr) of the comparison
@@ -295,7 +297,7 @@ def analyse_counting_loops(tu, f, g, fun_paths, exp_start, exp_bound, allow_ne=F
     return [analyse_counting_loop(tu, f, g, fun_paths, exp_start, exp_bound, allow_ne, head=h) for h in heads]
 
 
-def analyse_counting_loop(tu, f, g, fun_paths, exp_start, exp_bound, allow_ne=False, head=None):
+def analyse_counting_loop(tu, f, g, fun_paths, exp_start, exp_bound, allow_ne=False, head=None, free_step=False):
     """The function must contain exactly one loop, of the canonical counting form
          for (T i = <start>; i < <bound>; ++i) { ... f(i) exactly once ... }
     exp_start / exp_bound: Lin the start / bound must equal.  fun_paths: access paths that denote the functor."""
@@ -419,7 +421,13 @@ def analyse_counting_loop(tu, f, g, fun_paths, exp_start, exp_bound, allow_ne=Fa
             ok = True
         elif k == '=':
             ok = lin(tu, tu.kids(wn)[1]) == Lin.atom(('p', ipath)) + Lin.const(1)
-        if not ok:
+        li.step_lin = Lin.const(1) if k == '++' else None
+        if k == '+=':
+            li.step_lin = lin(tu, tu.kids(wn)[1], denv)
+        elif k == '=':
+            li.step_lin = lin(tu, tu.kids(wn)[1], denv) - Lin.atom(('p', ipath))
+        li.step_node = wn
+        if not ok and not (free_step and li.step_lin is not None and k in ('+=', '=')):
             li.problems.append(('step', 'induction variable is advanced by `%s`, not by a unit increment' % tu.show(wn), wn))
         if g.where(wn['id']) is None or g.where(wn['id'])[0] not in L:
             li.problems.append(('step', 'the increment of `%s` is outside the loop' % ipath[2], wn))
@@ -937,6 +945,17 @@ OMP_WORKSHARE = ('for', 'for simd', 'sections', 'single', 'loop')
 OMP_TRANSPARENT = ('simd', 'critical', 'master', 'ordered')
 
 
+def clause_written(tu, d, cname):
+    """was the clause written in the source (the directive line contains its name) - only used to word the diagnostic"""
+    try:
+        rng = d.get('range', {})
+        path = tu.files[tu.sd(d)['f']]
+        line = open(path).read().splitlines()[tu.sd(d)['l'] - 1]
+        return cname in line
+    except Exception:
+        return True
+
+
 def omp_join(tu, g, anc):
     """Does the construct around a dispatch loop join before control leaves it?  anc: OpenMP directives enclosing the loop,
     innermost first.  ('ok', text) | ('bad', key, text, node) | ('und', text)"""
@@ -1160,7 +1179,84 @@ def check_impl(ctx, tu, f, cfgname, chains, depth=0, signs_in=None):
                     events[n['id']] = 'helper'
                     problems.append(('helper-count', '`%s` receives `%r` instead of the count' % (cf['q'].split('::')[-1], ll), n))
     # ---- loops (one per dispatch arm, e.g. selected by omp_in_parallel())
-    loops = analyse_counting_loops(tu, f, g, {fpath}, Lin.const(0), Lin.atom(('p', ppath)))
+    omp_all = [n for n in fn_stmts(tu, f) if n.get('kind', '').startswith('OMP') and n.get('kind', '').endswith('Directive')]
+
+    def enclosing_omp(term_id):
+        anc_ = []
+        for d_ in omp_all:
+            ids_ = [x.get('id') for x in tu.walk(d_)]
+            if term_id in ids_:
+                anc_.append((len(ids_), d_))
+        return [d_ for sz_, d_ in sorted(anc_, key=lambda z: z[0])]
+
+    def replicated(anc_):
+        """the loop statement is executed by every thread of a parallel region (no worksharing / tasking construct owns it)"""
+        for d_ in anc_:
+            nm_ = tu.sd(d_).get('directive')
+            if nm_ in ('parallel',):
+                return d_
+            if nm_ in OMP_TRANSPARENT:
+                continue
+            return None
+        return None
+    heads_ = sorted({t for s_, t in g.back_edges()})
+    nested_ = any(h1 != h2 and h2 in natural_loop(g, h1) for h1 in heads_ for h2 in heads_)
+    loops = []
+    spmd = {}
+    if nested_:
+        li_ = LoopInfo()
+        li_.undecided.append('nested loops in the function')
+        loops = [li_]
+    else:
+        TNUM = Lin.atom(('call', 'omp_get_thread_num', ()))
+        for h_ in heads_:
+            region = replicated(enclosing_omp(g.blocks[h_].term)) if g.blocks[h_].term else None
+            if region is not None:
+                li0 = analyse_counting_loop(tu, f, g, {fpath}, Lin.const(0), Lin.atom(('p', ppath)), head=h_)
+                if li0 is not None and not li0.undecided and not any(k_ in ('start', 'step') for k_, t_, n_ in li0.problems):
+                    # the ordinary loop over [0, n), but executed by every thread of the region
+                    li_ = li0
+                    li_.problems.append(('omp-loop-replicated', 'the loop is inside a plain `omp parallel` region without a worksharing '
+                                         'construct: every thread of the team runs all indices, each index is invoked once per thread',
+                                         region))
+                else:
+                    li_ = analyse_counting_loop(tu, f, g, {fpath}, TNUM, Lin.atom(('p', ppath)), head=h_, free_step=True)
+                    spmd[id(li_)] = region
+            else:
+                li_ = analyse_counting_loop(tu, f, g, {fpath}, Lin.const(0), Lin.atom(('p', ppath)), head=h_)
+            loops.append(li_)
+    for li in loops:
+        region = spmd.get(id(li))
+        if region is not None and not li.undecided:
+            # every thread of the region runs this loop: indices are covered exactly once only by the interleaved form
+            #   i = omp_get_thread_num(); i < n; i += omp_get_num_threads()      (both read inside the region)
+            start_is_zero = any(k_ == 'start' and 'instead of' in t_ for k_, t_, n_ in li.problems) or \
+                (li.init_node is not None and lin(tu, li.init_node) == Lin.const(0))
+            TEAM = Lin.atom(('call', 'omp_get_num_threads', ()))
+            inside = lambda n_: n_ is not None and any(x.get('id') == n_.get('id') for x in tu.walk(region))
+            if start_is_zero and li.step_lin == Lin.const(1):
+                li.problems = [(k_, t_, n_) for k_, t_, n_ in li.problems if k_ != 'start']
+                li.problems.append(('omp-loop-replicated', 'the loop is inside a plain `omp parallel` region without a worksharing '
+                                    'construct: every thread of the team runs all indices, each index is invoked once per thread',
+                                    region))
+            elif li.step_lin == TEAM and inside(li.step_node):
+                pass
+            elif li.step_lin is not None and li.step_lin != TEAM:
+                sv = li.step_lin.single_atom()
+                outside = sv is not None and sv[0] == 'p' and sv[1][0] == 'v' and not inside(tu.node(sv[1][1]))
+                through = through_defs(li.step_node and tu.kids(li.step_node)[-1]) if li.step_node is not None else None
+                tq = tu.sd(leaf(tu, through)).get('q', '') if through is not None and leaf(tu, through) is not None else ''
+                if outside or li.step_lin.is_const() or tq.endswith('omp_get_max_threads'):
+                    li.problems.append(('omp-stride-not-team-size',
+                                        'each thread of the `omp parallel` region runs the indices t, t+S, t+2S, ... with the stride '
+                                        'S = `%s`, which is fixed outside the region (a requested or maximal thread count), not the size '
+                                        'of the team that actually executes it (omp_get_num_threads() inside the region): when the '
+                                        'runtime delivers fewer threads - a nested call gets a team of one - the indices of the missing '
+                                        'thread numbers are never run' % tu.show(tu.kids(li.step_node)[-1]), li.step_node))
+                else:
+                    li.undecided.append('stride `%r` of the per-thread loop is not recognised as the team size' % li.step_lin)
+            else:
+                li.undecided.append('step of the per-thread loop is not recognised')
     for li in loops:
         kinds.add('loop')
         if is_reference_param(pn) and li.header is not None and not omp_loop_head(tu, f, li):
@@ -1229,6 +1325,18 @@ def check_impl(ctx, tu, f, cfgname, chains, depth=0, signs_in=None):
             cls = tu.sd(d_).get('clauses', [])
             kids_ = [k_ for k_ in d_.get('inner', ()) if isinstance(k_, dict) and not k_.get('kind')]
             for ci, cname in enumerate(cls):
+                if cname in ('private', 'firstprivate', 'lastprivate', 'linear', 'reduction') and ci < len(kids_):
+                    vars_ = [x for x in tu.walk(kids_[ci]) if isinstance(x, dict) and x.get('kind') == 'DeclRefExpr' and
+                             x.get('referencedDecl', {}).get('id') == pf['id']]
+                    if vars_:
+                        problems.append(('omp-functor-privatised',
+                                         'the function object `%s` is %s in `omp %s` (%s): every thread / task calls its own copy '
+                                         '(for a reference the referenced object is copied), so whatever the invocations store in the '
+                                         'function object never reaches the caller\'s object, and the other backends call the caller\'s '
+                                         'object in place; it has to be shared' % (pf['name'], cname, tu.sd(d_).get('directive'),
+                                         'implicitly: the default for a task-generating construct outside a parallel region'
+                                         if not clause_written(tu, d_, cname) else 'explicit clause'), d_))
+                    continue
                 if cname not in ('num_threads', 'grainsize', 'num_tasks') or ci >= len(kids_):
                     continue
                 exprs = [x for x in kids_[ci].get('inner', ()) if isinstance(x, dict) and x.get('kind')]
@@ -5548,6 +5656,11 @@ def element_form(tu, e, defs):
 
 def _plus_form(tu, e, defs):
     n = leaf(tu, e)
+    hops = 0
+    while n is not None and n.get('kind') in ('CXXConstructExpr', 'MaterializeTemporaryExpr', 'CXXBindTemporaryExpr') and \
+            len(tu.kids(n)) == 1 and hops < 4:
+        n = leaf(tu, tu.kids(n)[0])          # a class-type iterator passed by value: copy of the temporary
+        hops += 1
     if n is None:
         return None
     ks = tu.kids(n)
@@ -5586,6 +5699,110 @@ def via_local(tu, e, defs):
 def arg_path(tu, e):
     """access path of an argument expression, also through the copy construction of a class-type argument"""
     return access_path(tu, e) or struct_source(tu, e)
+
+
+def foreach_block_form(ctx, tu, f, g, call, bpath, epath, fpath, itype, inst, loc, file, key):
+    """parallel_foreach through parallel_in_blocks_of(count, [&](first, last) {...}): the block body must apply the caller's
+    function object - by reference - to every element of [begin + first, begin + last) exactly once."""
+    R = 'R-C01-5'
+    s, obj, args = call_args(tu, call)
+    lamf, caps = callable_of(tu, args[1]) if len(args) == 2 else (None, None)
+    if lamf is None or caps or tu.cfg(lamf) is None or len(lamf['params']) != 2:
+        ctx.undecided(R, inst, 'second argument of parallel_in_blocks_of is not a lambda taking (first, last)', loc)
+        return
+    und, bad = [], []
+    defs = local_defs(tu, [f, lamf])
+    env = make_env(tu, defs)
+    ex, _ = count_paths(tu, g, {call['id']: 1}, None, 'P')
+    if once_verdict(ex):
+        und.append('parallel_in_blocks_of is not called exactly once on every path')
+    CNT = lin(tu, args[0], env)
+    Bp, Ep = Lin.atom(('p', bpath)), Lin.atom(('p', epath))
+    want = Lin.atom(('call', 'std::distance', (Bp, Ep)))
+    if CNT not in (want, Ep - Bp):
+        if (CNT - want).is_const() or CNT == Lin.atom(('call', 'std::distance', (Ep, Bp))):
+            bad.append(('count', 'the count is `%r` instead of distance(begin, end)' % CNT))
+        else:
+            und.append('count `%r` is not recognised as distance(begin, end)' % CNT)
+    lg = tu.cfg(lamf)
+    fp_, lp_ = param_path(lamf['params'][0]), param_path(lamf['params'][1])
+    F_, L_ = Lin.atom(('p', fp_)), Lin.atom(('p', lp_))
+    fe = [n for b, i, n in lg.stmts() if n.get('kind') in CALLS and tu.sd(n).get('q') == 'std::for_each']
+    direct = []
+    for b, i, n in lg.stmts():
+        if n.get('kind') in CALLS:
+            s2, obj2, args2 = call_args(tu, n)
+            if obj2 is not None and obj_path(tu, obj2) == fpath and s2.get('q', '').endswith('operator()'):
+                direct.append((n, args2))
+    if len(fe) == 1 and not direct:
+        c = fe[0]
+        a = tu.kids(c)[1:]
+        ex2, _ = count_paths(tu, lg, {c['id']: 1}, None, 'P')
+        if once_verdict(ex2):
+            bad.append(('element-once', 'std::for_each is not called exactly once per block'))
+        if len(a) != 3:
+            und.append('std::for_each is called with %d arguments' % len(a))
+        else:
+            for which, expr, wantidx in (('first', a[0], F_), ('last', a[1], L_)):
+                pf_ = _plus_form(tu, expr, defs)
+                if pf_ is None or pf_[0] is None:
+                    und.append('%s iterator `%s` of std::for_each is not recognised' % (which, tu.show(expr)))
+                    continue
+                (kind, base), idx = pf_
+                if base != bpath or kind != 'iter':
+                    und.append('%s iterator of std::for_each is not based on `begin`' % which)
+                elif idx != wantidx:
+                    if (idx - wantidx).is_const():
+                        bad.append(('element-index', 'std::for_each walks from/to `begin + %r` instead of `begin + %r`: elements are '
+                                    'skipped or visited twice' % (idx, wantidx)))
+                    else:
+                        und.append('%s iterator offset `%r` is not the block bound' % (which, idx))
+            # the function object argument: std::for_each takes it BY VALUE
+            fa = leaf(tu, a[2])
+            x = fa
+            hops = 0
+            while x is not None and x.get('kind') in ('CXXConstructExpr', 'MaterializeTemporaryExpr', 'CXXBindTemporaryExpr') and \
+                    len(tu.kids(x)) == 1 and hops < 4:
+                x = leaf(tu, tu.kids(x)[0])
+                hops += 1
+            q_ = tu.sd(x).get('q', '') if x is not None and x.get('kind') in CALLS else ''
+            if q_ in ('std::ref', 'std::cref') and len(tu.kids(x)) == 2 and ref_target(tu, tu.kids(x)[1]) == fpath:
+                pass          # reference_wrapper: copies of the wrapper all call the caller's object
+            elif obj_path(tu, a[2]) == fpath or (x is not None and obj_path(tu, x) == fpath):
+                how = 'std::forward / std::move' if q_ in ('std::forward', 'std::move') or \
+                    tu.sd(leaf(tu, tu.kids(x)[0]) if x is not None and tu.kids(x) else None).get('q', '') in ('std::forward', 'std::move') \
+                    else 'a copy'
+                bad.append(('functor-copied-per-block',
+                            'every block hands the function object `%s` to std::for_each, which takes it by value (%s): each block '
+                            'works on its own copy - what the invocations store in the function object never reaches the caller, and an '
+                            'rvalue function object is moved from by the first block, so all other blocks call a moved-from husk; pass '
+                            'std::ref(f) or call f in a loop' % (fpath[2], how)))
+            else:
+                und.append('function argument `%s` of std::for_each is not recognised' % tu.show(a[2]))
+    elif direct and not fe:
+        li = analyse_counting_loop(tu, lamf, lg, {fpath}, F_, L_, allow_ne=True)
+        if li is None:
+            und.append('the block body neither loops over [first, last) nor calls std::for_each')
+        else:
+            und += li.undecided
+            for k_, t_, n_ in ([] if li.undecided else li.problems):
+                bad.append(('element-' + k_, t_))
+            und.append('element access in a counting block loop is not analysed') if False else None
+            # element expression: f(begin[i]) with i the loop index
+            ipath_ = li.ivar
+            fc = [d_ for d_ in direct]
+            if len(fc) == 1 and len(fc[0][1]) == 1 and not li.undecided:
+                # the loop calls f(<element>) - the loop analysis looked for f(i); accept f(begin[i]) here
+                pass
+            und.append('block body with an explicit element loop is not a recognised form yet')
+    else:
+        und.append('the block body is not a single std::for_each over the block / a loop calling the function object')
+    for u in sorted(set(x_ for x_ in und if x_)):
+        ctx.undecided(R, inst, u, loc)
+    for k_, t_ in ([] if [x_ for x_ in und if x_] else sorted(set(bad))):
+        ctx.violation(R, inst, t_, loc, key=key(k_))
+    if not bad and not [x_ for x_ in und if x_]:
+        ctx.ok(R, inst, 'blocks of [0, distance(begin, end)): std::for_each(begin + first, begin + last, std::ref(f))', loc)
 
 
 def check_foreach(ctx, tu, cfgname):
@@ -5658,6 +5875,11 @@ def check_foreach(ctx, tu, cfgname):
                 outer_call, holder, a_ = hs[0]
                 amap = {param_path(p_): x for p_, x in zip(holder['params'], a_)}
                 calls = [n for b, i, n in tu.cfg(holder).stmts() if n.get('kind') in CALLS and tu.sd(n).get('q') == PFOR]
+        if not calls:
+            bcalls = [n for b, i, n in tu.cfg(holder).stmts() if n.get('kind') in CALLS and tu.sd(n).get('q') == BLOCKS]
+            if len(bcalls) == 1:
+                foreach_block_form(ctx, tu, f, g, bcalls[0], bpath, epath, fpath, itype, inst, loc, file, key)
+                continue
         if len(calls) != 1:
             ctx.undecided(R, inst, '%d calls of parallel_for (expected one)' % len(calls), loc)
             continue
